@@ -37,14 +37,14 @@ FIELDS = "time,delta,elapsed,tid,duration,addr"
 FIXCLASS = {
     "exec": ["execl", "execlp", "execle", "execv", "execve", "execvp", "execvpe"],
     "setjmp": ["setjmp", "_setjmp", "sigsetjmp", "__sigsetjmp"],
-    "longjmp": ["longjmp", "siglongjmp", "__longjmp_chk"],
+    "longjmp": ["longjmp", "siglongjmp", "__longjmp_chk", "_longjmp"],
     "fork": ["fork", "vfork", "daemon", "posix.fork"],
 }
 FIXNAMES = [n for k in ("exec", "setjmp", "longjmp", "fork") for n in FIXCLASS[k]]
 FORKLIKE = tuple(FIXCLASS["fork"])
 # names that contain or resemble a fix-up name but are not in fixup_syms[]: ordinary functions
 LOOKALIKE = ["my_longjmp_helper", "setjmp_wrapper", "do_fork", "forkpty", "exec", "execute", "daemonize",
-             "_longjmp", "longjmp_chk", "posix_fork", "vforked", "xsetjmp", "fexecve"]
+             "longjmp_", "longjmp_chk", "posix_fork", "vforked", "xsetjmp", "fexecve"]
 PLAIN = ["main", "alpha", "beta", "gamma", "delta", "eps", "zeta", "eta"]
 NAMES = PLAIN + LOOKALIKE + FIXNAMES
 T0 = 2000           # every record is later than the TASK/FORK lines of task.txt
@@ -1195,7 +1195,7 @@ def run(ctx):
                 "of a fork()/vfork()/daemon()/posix.fork() the parent is seen to call (20%% of them scheduled late, so that the parent may "
                 "have forked again), or at an arbitrary depth; 10%% carry wrong depth fields, 8%% EXITs with nothing open (model "
                 "fidelity only, monitors skip them). The symbol table holds plain names, look-alikes of the fix-up names and a random "
-                "subset (34%%: all) of the 18 names of fixup_syms[]; 60%% of the directories have one task (13%%: two) that calls "
+                "subset (34%%: all) of the 19 names of fixup_syms[]; 60%% of the directories have one task (13%%: two) that calls "
                 "setjmp-family functions and longjmp-family functions back to a live jump point (the last armed one, or with p=0.3 in "
                 "a quarter of them an older one = shape of C11-LONGJMP-DEPTH), 35%% have exec*() calls that reset the stack (in two "
                 "thirds of those directories an exec may fail and return = shape of C06-EXEC-FAILED). Each directory is replayed in 5 modes: default, --no-merge -f F, -f F, "
